@@ -73,7 +73,8 @@ ALL_PAIRS = list(itertools.product(R.KINDS, R.KINDS))
 def _lattice(tier):
     """(levels, main lattice, sub-lattice for 'unbalanced' family members)."""
     if tier == 'quick':
-        main = dict(starts={1: ['lower', 'mixed'], 2: ['lower', 'mixed'], 3: ['mixed'], 5: ['mixed']},
+        main = dict(starts={1: ['lower', 'mixed', 'upper'], 2: ['lower', 'mixed', 'upper', 'int'], 3: ['mixed', 'int'],
+                            5: ['mixed']},
                     splits=R.SPLITS, asy=['default'], versions=R.VERSIONS,
                     pairs={1: ROT_PAIRS, 2: ROT_PAIRS, 3: ROT_PAIRS + DIAG_PAIRS, 5: ROT_PAIRS})
         sub = dict(starts={n: ['mixed'] for n in (1, 2, 3, 5)}, splits=['one_array'], asy=['default'],
@@ -81,7 +82,7 @@ def _lattice(tier):
                    pairs={n: [('pervar', 'pervar')] for n in (1, 2, 3, 5)})
         return [('all', [1, 2, 3, 5])], main, sub
     ns = (1, 2, 3, 5, 8)
-    main = dict(starts={n: R.STARTS for n in ns}, splits=R.SPLITS, asy=sorted(R.ASY), versions=R.VERSIONS,
+    main = dict(starts={n: R.STARTS + ['int'] for n in ns}, splits=R.SPLITS, asy=sorted(R.ASY), versions=R.VERSIONS,
                 pairs={n: ALL_PAIRS for n in ns})
     sub = dict(starts={n: ['lower', 'mixed'] for n in ns}, splits=R.SPLITS, asy=sorted(R.ASY), versions=R.VERSIONS,
                pairs={n: DIAG_PAIRS for n in ns})
@@ -193,13 +194,18 @@ def execute(case):
     prob = R.Problem(n, case['obj'], case['cons'], lo, hi, table)
     m = prob.m
     x0 = R.start_point(n, lo, hi, case['start'], table)
+    if case['start'] == 'int' and not (np.all(lo <= 1.0) and np.all(hi >= 1.0)):
+        return {'skipped': 'integer start 1 outside the bounds of this table'}
     asyinit, asyincr, asydecr, albefa = R.ASY[case['asy']]
 
     # fresh pyMOTO objects
     sigs = []
     for i, sz in enumerate(sizes):
         seg = x0[cum[i]:cum[i + 1]]
-        sigs.append(pym.Signal(f'x{i}', float(seg[0]) if sz == 0 else seg.copy()))
+        if case['start'] == 'int':     # integer-typed design states (python int / integer array) are legitimate inputs
+            sigs.append(pym.Signal(f'x{i}', int(seg[0]) if sz == 0 else seg.astype(int)))
+        else:
+            sigs.append(pym.Signal(f'x{i}', float(seg[0]) if sz == 0 else seg.copy()))
     seen = []
     outs = [pym.Signal('f' if i == 0 else f'g{i}') for i in range(m + 1)]
     mods = [_RESP(sigs, outs[i], prob, i, seen) for i in range(m + 1)]
